@@ -650,8 +650,41 @@ func callString(c bCall) string {
 }
 
 func runBridge(rc *RunCtx) {
-	wl := rc.tape.Stream("workload")
-	fl := rc.tape.Stream("faults")
+	pl := rc.tape.Stream("plan")
+	nTasks := 1
+	if pl.Intn(6) == 0 {
+		nTasks = 2 + pl.Intn(2)
+	}
+	if nTasks == 1 {
+		bridgeOnce(rc, rc.tape.Stream("workload"), rc.tape.Stream("faults"), true)
+		return
+	}
+	// several independent bridge worlds on tasks interleaved at statement level:
+	// every task must still match its own model (no leakage through package state)
+	wls := make([]*Stream, nTasks)
+	fls := make([]*Stream, nTasks)
+	for t := range wls {
+		wls[t] = rc.tape.Stream("workload-" + strconv.Itoa(t))
+		fls[t] = rc.tape.Stream("faults-" + strconv.Itoa(t))
+	}
+	strat := drawStrategy(pl, rc.tier, false)
+	rc.strats[strategyNames[strat.Kind]]++
+	sched := NewSched(nTasks, strat, rc.tape.Stream("sched"), 400000)
+	tasks := make([]func(), nTasks)
+	for t := 0; t < nTasks; t++ {
+		t := t
+		tasks[t] = func() { bridgeOnce(rc, wls[t], fls[t], t == 0) }
+	}
+	sched.Run(tasks)
+	rc.switches += sched.switches
+	rc.faults["preempt"] += sched.switches
+	rc.ev.add(sched.trace.h)
+	if sched.switches > 0 {
+		rc.probe("bridge_worlds_interleaved_at_statement_level")
+	}
+}
+
+func bridgeOnce(rc *RunCtx, wl, fl *Stream, primary bool) {
 	maxParams, maxCalls, depth, nFuncs := 4, 4, 2, 4
 	if rc.thorough {
 		maxParams, maxCalls, depth, nFuncs = 6, 10, 3, 6
@@ -827,9 +860,11 @@ func runBridge(rc *RunCtx) {
 	}
 	rc.probes["bridge_calls_generated"] += int64(g.calls)
 	rc.ev.add(shape.h)
-	rc.sig = shape.h
-	rc.nontriv = dry.n > 0 || dry.why != ""
-	rc.sample = sample
+	rc.sig = mix64(rc.sig, shape.h)
+	rc.nontriv = rc.nontriv || dry.n > 0 || dry.why != ""
+	if primary {
+		rc.sample = sample
+	}
 }
 
 func panicStr(p interface{}) string {
